@@ -470,6 +470,15 @@ func (w *World) final() {
 			}
 			continue
 		}
+		// a request that was completely sent, on a connection the server had accepted, before the first Shutdown call is in
+		// flight: it is answered - the connection is not dropped unread (judged without early timer firings only)
+		if len(w.shutdowns) > 0 && w.shutdowns[0].called && w.shutdowns[0].slackFree && c.accepted && c.acceptAt < w.shutdowns[0].start && c.srvClosed {
+			for k, t := range c.reqTimes {
+				if t < w.shutdowns[0].start && k < len(c.reqEnds) && c.consumed < c.reqEnds[k] && len(fin) <= k {
+					w.violate("client %d: request %d was sent at %v on a connection accepted at %v, both before Shutdown was called at %v, but the server closed the connection without reading it", i, k, t, c.acceptAt, w.shutdowns[0].start)
+				}
+			}
+		}
 		if len(fin) < received {
 			w.violate("client %d: the server consumed %d complete requests but wrote %d complete responses (closed=%v): %q", i, received, len(fin), c.srvClosed, clip(c.out))
 			continue
